@@ -122,6 +122,11 @@ def m_from_le_limbs(I, fr, fn, a):
     if not all(isinstance(x, int) for x in l): raise Unsupported('symbolic limbs in from_le_limbs (POLY)')
     return FE.const(field_of(fn), limbs_to_int(l))
 
+def m_from_raw_bytes(I, fr, fn, a):
+    b = I.deref(a[0])
+    if not all(isinstance(x, int) for x in b): return NotImplemented
+    return FE.const(field_of(fn), sum(x << (8 * i) for i, x in enumerate(b)))
+
 def m_is_nonnegative(I, fr, fn, a):
     x = D(I, a[0])
     return (not fe_is_negative(I, x)) if isinstance(x, FE) else NotImplemented
@@ -587,7 +592,7 @@ STD_FNS = [
     (r'^<.* as core::convert::AsRef<.*>>::as_ref$', lambda I, fr, fn, a: m_vec_deref(I, fr, fn, a) if isinstance(I.deref(a[0]), Agg) and I.deref(a[0]).name.endswith('Vec') else (SliceRef(a[0], 0, len(I.deref(a[0]))) if isinstance(a[0], Ref) and isinstance(I.deref(a[0]), list) else a[0])),
     (r'^<once_cell::sync::Lazy<.*> as core::ops::Deref>::deref$', m_lazy_deref),
     (r'^once_cell::sync::Lazy::<.*>::new$', m_lazy_new),
-    (r'^<alloc::vec::Vec<.*> as core::ops::Deref(Mut)?>::deref(_mut)?$', m_vec_deref),
+    (r'^<(alloc|ark_ff|ark_std|std)::vec::Vec<.*> as core::ops::Deref(Mut)?>::deref(_mut)?$', m_vec_deref),
     (r'^<.* as core::iter::IntoIterator>::into_iter$', m_into_iter),
     (r'^core::slice::<impl \[.*\]>::iter(_mut)?$', m_iter),
     (r'^core::array::<impl \[.*\]>::iter(_mut)?$', m_iter),
@@ -629,7 +634,7 @@ def field_poly_models():
     return [
         (rf'^{W}::add$', m_fe_binop('add')), (rf'^{W}::sub$', m_fe_binop('sub')), (rf'^{W}::mul$', m_fe_binop('mul')),
         (rf'^{W}::neg$', m_fe_neg), (rf'^{W}::square$', m_fe_square), (rf'^{W}::inverse$', m_fe_inverse),
-        (rf'^{W}::from_montgomery_limbs$', m_from_montgomery_limbs), (rf'^{W}::from_le_limbs$', m_from_le_limbs),
+        (rf'^{W}::from_montgomery_limbs$', m_from_montgomery_limbs), (rf'^{W}::from_le_limbs$', m_from_le_limbs), (rf'^{W}::from_raw_bytes$', m_from_raw_bytes),
         (rf'^<{W} as core::cmp::PartialEq>::eq$', m_fe_eq), (rf'^<{W} as core::cmp::PartialEq>::ne$', m_fe_ne),
         (rf'^<&{W} as core::cmp::PartialEq>::eq$', m_fe_eq), (rf'^<&{W} as core::cmp::PartialEq>::ne$', m_fe_ne),
         (rf'^<{W} as sign::Sign>::is_nonnegative$', m_is_nonnegative),
@@ -651,7 +656,34 @@ def ark_ff_models():
     def m_fp_new_unchecked(I, fr, fn, a):
         b = a[0]; l = b.fields[0] if isinstance(b, Agg) else b
         return mont_to_fe(ark_field(fn), l)
+    def m_from_sign_and_limbs(I, fr, fn, a):
+        pos, l = a; l = I.deref(l)
+        v = limbs_to_int(l)
+        return FE.const(ark_field(fn), v if pos else -v)
+    def m_bigint_from_fp(I, fr, fn, a):
+        x = D(I, a[0])
+        if not (isinstance(x, FE) and x.is_const()): return NotImplemented
+        n = LIMBS64[x.field]; v = x.const_value()
+        return Agg('ark_ff::BigInt', [[(v >> (64 * i)) & (2 ** 64 - 1) for i in range(n)]])
+    def m_bigint_to_bytes_le(I, fr, fn, a):
+        b = D(I, a[0]); l = b.fields[0]
+        if not all(isinstance(x, int) for x in l): return NotImplemented
+        v = limbs_to_int(l)
+        return Agg('alloc::vec::Vec', [[(v >> (8 * i)) & 255 for i in range(8 * len(l))]])
+    def m_field_pow(I, fr, fn, a):
+        x = D(I, a[0]); e = D(I, a[1])
+        if isinstance(e, (Ref, SliceRef)): e = I.deref(e)
+        l = e.fields[0] if isinstance(e, Agg) else e
+        if not (isinstance(x, FE) and all(isinstance(k, int) for k in l)): return NotImplemented
+        ev = limbs_to_int(l)
+        if x.is_const(): return FE.const(x.field, pow(x.const_value(), ev, x.p))
+        return x.pow(ev)
     return [
+        (r'^ark_ff::fp::montgomery_backend::<impl ark_ff::Fp<.*>>::from_sign_and_limbs$', m_from_sign_and_limbs),
+        (r'^<ark_ff::BigInt<\d+> as core::convert::From<ark_ff::Fp<.*>>>::from$', m_bigint_from_fp),
+        (r'^<ark_ff::Fp<.*> as core::convert::Into<ark_ff::BigInt<\d+>>>::into$', m_bigint_from_fp),
+        (r'^<ark_ff::BigInt<\d+> as ark_ff::BigInteger>::to_bytes_le$', m_bigint_to_bytes_le),
+        (r'^<fields::f[pqr]::u64::wrapper::F[pqr] as ark_ff::Field>::pow::<.*>$', m_field_pow),
         (r'^ark_ff::BigInt::<\d+>::one$', lambda I, fr, fn, a: Agg('ark_ff::BigInt', [[1] + [0] * (int(re.search(r'<(\d+)>', fn).group(1)) - 1)])),
         (r'^ark_ff::BigInt::<\d+>::new$', lambda I, fr, fn, a: Agg('ark_ff::BigInt', [list(a[0])])),
         (r'^ark_ff::fp::montgomery_backend::<impl ark_ff::Fp<.*>>::new$', m_fp_new),
